@@ -719,6 +719,9 @@ func (loader *Loader) resolveHeaderRef(doc *T, component *HeaderRef, documentPat
 				if err = loader.resolveHeaderRef(doc, &held, documentPath); err != nil {
 					return err
 				}
+				if held.Value == nil {
+					return fmt.Errorf("reference %q leads back to a reference in progress without reaching an object", ref)
+				}
 				component.Value = held.Value
 				component.setRefPath(held.RefPath())
 			} else {
@@ -812,6 +815,9 @@ func (loader *Loader) resolveParameterRef(doc *T, component *ParameterRef, docum
 			if held.Ref != "" {
 				if err = loader.resolveParameterRef(doc, &held, documentPath); err != nil {
 					return err
+				}
+				if held.Value == nil {
+					return fmt.Errorf("reference %q leads back to a reference in progress without reaching an object", ref)
 				}
 				component.Value = held.Value
 				component.setRefPath(held.RefPath())
@@ -909,6 +915,9 @@ func (loader *Loader) resolveRequestBodyRef(doc *T, component *RequestBodyRef, d
 				if err = loader.resolveRequestBodyRef(doc, &held, documentPath); err != nil {
 					return err
 				}
+				if held.Value == nil {
+					return fmt.Errorf("reference %q leads back to a reference in progress without reaching an object", ref)
+				}
 				component.Value = held.Value
 				component.setRefPath(held.RefPath())
 			} else {
@@ -1003,6 +1012,9 @@ func (loader *Loader) resolveResponseRef(doc *T, component *ResponseRef, documen
 			if held.Ref != "" {
 				if err = loader.resolveResponseRef(doc, &held, documentPath); err != nil {
 					return err
+				}
+				if held.Value == nil {
+					return fmt.Errorf("reference %q leads back to a reference in progress without reaching an object", ref)
 				}
 				component.Value = held.Value
 				component.setRefPath(held.RefPath())
@@ -1111,6 +1123,9 @@ func (loader *Loader) resolveSchemaRef(doc *T, component *SchemaRef, documentPat
 			if held.Ref != "" {
 				if err = loader.resolveSchemaRef(doc, &held, documentPath, visited); err != nil {
 					return err
+				}
+				if held.Value == nil {
+					return fmt.Errorf("reference %q leads back to a reference in progress without reaching an object", ref)
 				}
 				component.Value = held.Value
 				component.setRefPath(held.RefPath())
@@ -1225,6 +1240,9 @@ func (loader *Loader) resolveSecuritySchemeRef(doc *T, component *SecurityScheme
 				if err = loader.resolveSecuritySchemeRef(doc, &held, documentPath); err != nil {
 					return err
 				}
+				if held.Value == nil {
+					return fmt.Errorf("reference %q leads back to a reference in progress without reaching an object", ref)
+				}
 				component.Value = held.Value
 				component.setRefPath(held.RefPath())
 			} else {
@@ -1281,6 +1299,9 @@ func (loader *Loader) resolveExampleRef(doc *T, component *ExampleRef, documentP
 			if held.Ref != "" {
 				if err = loader.resolveExampleRef(doc, &held, documentPath); err != nil {
 					return err
+				}
+				if held.Value == nil {
+					return fmt.Errorf("reference %q leads back to a reference in progress without reaching an object", ref)
 				}
 				component.Value = held.Value
 				component.setRefPath(held.RefPath())
@@ -1342,6 +1363,9 @@ func (loader *Loader) resolveCallbackRef(doc *T, component *CallbackRef, documen
 			if held.Ref != "" {
 				if err = loader.resolveCallbackRef(doc, &held, documentPath); err != nil {
 					return err
+				}
+				if held.Value == nil {
+					return fmt.Errorf("reference %q leads back to a reference in progress without reaching an object", ref)
 				}
 				component.Value = held.Value
 				component.setRefPath(held.RefPath())
@@ -1415,6 +1439,9 @@ func (loader *Loader) resolveLinkRef(doc *T, component *LinkRef, documentPath *u
 			if held.Ref != "" {
 				if err = loader.resolveLinkRef(doc, &held, documentPath); err != nil {
 					return err
+				}
+				if held.Value == nil {
+					return fmt.Errorf("reference %q leads back to a reference in progress without reaching an object", ref)
 				}
 				component.Value = held.Value
 				component.setRefPath(held.RefPath())
